@@ -2,10 +2,12 @@ SPECIFICATION FairSpec
 CONSTANTS
   Subs = {"s1","s2"}
   K = 2
+  Closers = {"c1"}
   LegacyPlainSend = FALSE
   LegacyNoWgLock = FALSE
   MutClosingFirst = TRUE
   MutSharedCtx = FALSE
+  MutEarlyReturn = FALSE
 INVARIANTS TypeOK NoAddDuringWait DropJustified InOrderOnce NothingLostSilently OutClosedAfterIn CloseComplete
 PROPERTIES CloseReturns CancelCloses
 CHECK_DEADLOCK FALSE
